@@ -110,6 +110,37 @@ def run_case(case):
     return r.to_dict()
 
 
+def _tie_placement(r, scene, wit, ssig):
+    """Objects of odd size centred in the (even) volume through place_at_center: the snap is an exact tie, which the
+    three policy descriptions (same edge arithmetic, bit-identical edges) must resolve identically.  Placement only
+    (no time loop); the hand-written-edge variant is excluded because its edges differ by an ulp."""
+    import copy
+
+    import numpy as np
+
+    from vf import scenes
+
+    base = copy.deepcopy(scene)
+    base["sources"], base["detectors"] = [], []
+    base["materials"] = list(base.get("materials", [])) + [
+        {"center": True, "size": [3, 1, 3], "mat": {"eps": 5.0}, "order": 20, "name": "tie_a"},
+        {"center": True, "size": [1, 3, 1], "mat": {"eps": 7.0}, "order": 21, "name": "tie_b"},
+    ]
+    got = {}
+    for v in ("uniform", "rect_uniform", "quasi"):
+        b = scenes.build(_variant(base, v))
+        got[v] = ({o.name: tuple(map(tuple, o.grid_slice_tuple)) for o in b["objects"].objects}, np.asarray(b["arrays"].inv_permittivities))
+        r.count("tie_placements")
+    for v in ("rect_uniform", "quasi"):
+        sig = f"{v}|tie-placement|{ssig}"
+        if got[v][0] != got["uniform"][0]:
+            diff = {k: [got["uniform"][0].get(k), got[v][0].get(k)] for k in got["uniform"][0] if got[v][0].get(k) != got["uniform"][0].get(k)}
+            r.violate(f"{v}: objects centred with place_at_center resolve to other grid slices than under UniformGrid", {**wit, "variant": v, "slices_uniform_vs_variant": diff}, sig=sig)
+        else:
+            r.ok(sig)
+        r.check_close("tie_inv_permittivities", got[v][1], got["uniform"][1], 1e-12, witness={**wit, "variant": v}, sig=sig)
+
+
 def _scene(r, scene, tags, case, j):
     import numpy as np
 
@@ -131,6 +162,7 @@ def _scene(r, scene, tags, case, j):
     sp = scene["grid"]["spacing"]
     r.branch("spacing:round" if sp in (20e-9, 37.5e-9, 50e-9, 1e-7) else "spacing:non-round")
 
+    _tie_placement(r, scene, wit, ssig)
     b0, st0 = diffrun.run_scene(_variant(scene, "uniform"))
     ref = diffrun.collect(b0, st0, materials=True)
     g0 = b0["config"].grid
